@@ -8,7 +8,7 @@
 (* counts, cleaning totals, PeerAdded/PeerRemoved tally, the export file,  *)
 (* access-list reload results and the gate decision.                       *)
 (***************************************************************************)
-EXTENDS RefTracker, Bags, Json, IOUtils
+EXTENDS RefTracker, Dump, Bags, Json, IOUtils
 
 Rec == ndJsonDeserialize(IOEnv.TRACE)
 
@@ -141,7 +141,13 @@ Allowed ==
     /\ E.ok = Allows(E.h)
     /\ UNCHANGED <<store, tally, cfg, list>>
 
-Next == Reset \/ Announce \/ Scrape \/ Clean \/ Reload \/ Allowed
+(* Where the executor logged a state dump, the stored state itself must equal *)
+(* the reference store (empty torrents ignored) after every step.            *)
+DumpOK ==
+    ("dump" \in DOMAIN E) => /\ DumpWellFormed(E.dump)
+                              /\ DumpAbs(E.dump) = store'
+
+Next == (Reset \/ Announce \/ Scrape \/ Clean \/ Reload \/ Allowed) /\ DumpOK
 
 Spec == Init /\ [][Next]_vars
 
